@@ -1,5 +1,102 @@
-import Tahoe.Base.Merkle
+import Tahoe.Base.LemmasMerkleSound
+/-! C35 — Merkle hash trees accept only genuine leaves (hashtree.py `IncompleteHashTree.set_hashes`).
+
+Vocabulary (Tahoe/Base/Merkle.lean): `Genuine ops T` — `T` is a fully populated Merkle tree; `Agree t T` — the
+partial tree `t` equals `T` wherever populated; `PairInjective ops` — the pair hash is collision-free;
+`StrictPresence ops cfg` — the `if self[i]:` test never takes a stored hash for `None` (the repaired code, or
+the code as it is over hashes that are never `b""`); `pick` — the order in which `set.pop()` hands out the
+red-dotted nodes of a level (any function). Helper lemmas: Tahoe/Base/LemmasMerkle*.lean. -/
 namespace Tahoe.C35
 open Tahoe.Base.Merkle
-theorem stub : (1 : Nat) = 1 := rfl
+
+variable {H : Type} [DecidableEq H]
+
+/-- **rollback**: when `set_hashes` rejects (BadHashError / NotEnoughHashesError, and IndexError where it is
+    caught) the list is exactly the input list. -/
+theorem rollback (ops : HashOps H) (cfg : Cfg) (hstrict : StrictPresence ops cfg)
+    (pick : List Nat → Nat) (first : Nat) (t : Tree H) (hashes leaves : List (Nat × H))
+    (o : Outcome) (t' : Tree H)
+    (h : setHashes ops cfg pick first t hashes leaves = (o, t')) (hne : o ≠ .ok)
+    (hidx : o = .indexError → cfg.catchIndex = true) : t' = t := by
+  unfold setHashes at h
+  cases hm : mergeLeaves first hashes leaves with
+  | none => rw [hm] at h; injection h with h1 h2; exact h2.symm
+  | some new =>
+    rw [hm] at h
+    have hreach := tryBody_reach (ops.withCfg cfg) pick t new
+    cases hres : tryBody (ops.withCfg cfg) pick t new with
+    | ok st => rw [hres] at h; injection h with h1 h2; exact absurd h1.symm hne
+    | error e =>
+      obtain ⟨o', st⟩ := e
+      rw [hres] at h hreach
+      have hcls := tryBody_no_internal (ops.withCfg cfg) pick t new hres
+      have hinv : RollInv t st := hreach.rollInv hstrict (rollInv_init t)
+      simp only at h
+      by_cases hc : o' = .badHash ∨ o' = .notEnough ∨ (o' = .indexError ∧ cfg.catchIndex = true)
+      · rw [if_pos hc] at h
+        injection h with h1 h2
+        rw [← h2]; exact rollback_spec hinv
+      · rw [if_neg hc] at h
+        injection h with h1 h2
+        subst h1
+        exfalso; apply hc
+        cases hcls with
+        | inl e => exact Or.inl e
+        | inr e =>
+          cases e with
+          | inl e => exact Or.inr (Or.inl e)
+          | inr e => exact Or.inr (Or.inr ⟨e, hidx e⟩)
+
+/-- **sound**: a tree that agrees with the genuine tree `T` wherever populated and holds a root still agrees
+    with `T` after a *successful* `set_hashes` with arbitrary (adversarial) hashes and leaves, for every pop
+    order — given that the pair hash is collision-free. -/
+theorem sound (ops : HashOps H) (cfg : Cfg) (hstrict : StrictPresence ops cfg) (hinj : PairInjective ops)
+    (T t : Tree H) (hT : Genuine ops T) (hlen : t.length = T.length) (hagree : Agree t T)
+    (hroot : get t 0 ≠ none)
+    (pick : List Nat → Nat) (first : Nat) (hashes leaves : List (Nat × H)) (t' : Tree H)
+    (h : setHashes ops cfg pick first t hashes leaves = (.ok, t')) : Agree t' T := by
+  unfold setHashes at h
+  cases hm : mergeLeaves first hashes leaves with
+  | none => rw [hm] at h; injection h with h1 h2; cases h1
+  | some new =>
+    rw [hm] at h
+    cases hres : tryBody (ops.withCfg cfg) pick t new with
+    | ok st =>
+      rw [hres] at h; injection h with h1 h2; subst h2
+      exact tryBody_sound (ops := ops.withCfg cfg) hstrict hinj ⟨hT.odd, hT.full, hT.node⟩ hlen hagree hroot
+        pick new hres
+    | error e =>
+      obtain ⟨o', st⟩ := e
+      rw [hres] at h
+      have hcls := tryBody_no_internal (ops.withCfg cfg) pick t new hres
+      simp only at h
+      split at h <;> (injection h with h1 h2; subst h1; simp at hcls)
+
+/-- **an accepted leaf is genuine**: under the hypotheses of `sound`, every leaf value (and every other hash)
+    passed to a successful `set_hashes` equals the corresponding entry of `T`. -/
+theorem accepted_leaf_genuine (ops : HashOps H) (cfg : Cfg) (hstrict : StrictPresence ops cfg)
+    (hinj : PairInjective ops) (T t : Tree H) (hT : Genuine ops T) (hlen : t.length = T.length)
+    (hagree : Agree t T) (hroot : get t 0 ≠ none)
+    (pick : List Nat → Nat) (first : Nat) (hashes leaves : List (Nat × H)) (t' : Tree H)
+    (h : setHashes ops cfg pick first t hashes leaves = (.ok, t')) :
+    (∀ k v, (k, v) ∈ leaves → get T (first + k) = some v) ∧ (∀ i v, (i, v) ∈ hashes → get T i = some v) := by
+  have hs := sound ops cfg hstrict hinj T t hT hlen hagree hroot pick first hashes leaves t' h
+  unfold setHashes at h
+  cases hm : mergeLeaves first hashes leaves with
+  | none => rw [hm] at h; injection h with h1 h2; cases h1
+  | some new =>
+    rw [hm] at h
+    obtain ⟨m1, m2⟩ := mergeLeaves_mem first hashes leaves hm
+    cases hres : tryBody (ops.withCfg cfg) pick t new with
+    | ok st =>
+      rw [hres] at h; injection h with h1 h2; subst h2
+      have hst := tryBody_stored (ops := ops.withCfg cfg) hstrict pick t new hres
+      exact ⟨fun k v hk => hs _ _ (hst _ _ (m2 k v hk)), fun i v hi => hs _ _ (hst _ _ (m1 _ hi))⟩
+    | error e =>
+      obtain ⟨o', st⟩ := e
+      rw [hres] at h
+      have hcls := tryBody_no_internal (ops.withCfg cfg) pick t new hres
+      simp only at h
+      split at h <;> (injection h with h1 h2; subst h1; simp at hcls)
+
 end Tahoe.C35
